@@ -1,7 +1,7 @@
 // target: src/sync.rs
 // labels: query.* bounds.author_key.* bounds.bykey.* bounds.namespace.* store.get_exact.*
 // tier: quick
-// bound: two authors, keys over {a, ab, b, [61 ff], [61 ff 01], [62]}, a fixed history of 12 inserts incl. three deletion markers and one
+// bound: two authors, keys over {a, ab, b, [61 ff], [61 ff 01], [62]}, a fixed history of 15 inserts incl. three deletion markers, an out-of-order arrival below a prefix and one
 // prefix deletion that removes a longer key (dangling by-key index row in the middle of the key order); every query over kind {flat by author-key, flat by key-author, latest-per-key} x author filter {any, a0, a1} x key filter
 // {any, exact k, prefix p for every k, p in the key universe and [61], [ff]} x direction x include_empty x offset {0,1,2} x limit {none,1,2}
 // compared with the definition of C05 (filter, order, group latest per key over all authors, then author filter, skip, take).
@@ -57,6 +57,9 @@ mod verif_rp_c05_query {
             (0, vec![0x61, 0xff, 0x01], 9, true), (1, vec![0x62], 10, true), (0, vec![0x62], 11, false),
             // prefix deletion that really removes a longer key of the same author ([61 ff 01] of author 1) and leaves its index row behind
             (1, vec![0x61, 0xff], 12, false),
+            // out-of-order arrival below a prefix: a newer and an older entry of author 0 below [61 62], then an entry at [61 62] whose timestamp
+            // lies between them: the older one is pruned, the newer one must stay reachable through both indexes
+            (0, vec![0x61, 0x62, 0x63], 20, false), (0, vec![0x61, 0x62, 0x64], 14, false), (0, vec![0x61, 0x62], 15, false),
         ];
         for (a, k, ts, marker) in &hist {
             let (hash, len) = if *marker { (Hash::EMPTY, 0) } else { (Hash::new(b"x"), 1) };
@@ -65,7 +68,7 @@ mod verif_rp_c05_query {
         }
         drop(r);
         let mut held: Vec<Row> = vec![];
-        let key_universe: Vec<Vec<u8>> = vec![vec![0x61], vec![0x61, 0x62], vec![0x62], vec![0x61, 0xff], vec![0x61, 0xff, 0x01]];
+        let key_universe: Vec<Vec<u8>> = vec![vec![0x61], vec![0x61, 0x62], vec![0x62], vec![0x61, 0xff], vec![0x61, 0xff, 0x01], vec![0x61, 0x62, 0x63], vec![0x61, 0x62, 0x64]];
         for (ai, a) in aid.iter().enumerate() { for k in &key_universe {
             if let Some(e) = store.get_exact(ns.id(), *a, k, true).unwrap() { held.push((k.clone(), ai, e.timestamp() - base, e.is_empty())); }
         } }
